@@ -1030,9 +1030,13 @@ def r_stats_order(F, R):
             if callee_tag(t.get("callee"))[1] not in ("sort_by", "sort_unstable_by") or len(t["args"]) < 2:
                 continue
             clo = operand_tree(ctx, t["args"][1])
-            if not (clo[0] == "agg" and str(clo[1]).startswith("closure:")):
+            if clo[0] == "const":
+                from expr import _fnitem_body
+                cb = _fnitem_body(F, clo[1])  # `sort_by(by_count_descending)`: a named comparison function
+            elif clo[0] == "agg" and str(clo[1]).startswith("closure:"):
+                cb = F.body(clo[1][len("closure:"):])
+            else:
                 continue
-            cb = F.body(clo[1][len("closure:"):])
             if cb is None:
                 continue
             cctx = Ctx(cb)
